@@ -786,7 +786,9 @@ def decorate_with_checker(func: CallableT) -> CallableT:
                 # Ideally, we would catch any exception here and strip the checkers from the traceback.
                 # Unfortunately, this can not be done in Python 3, see
                 # https://stackoverflow.com/questions/44813333/how-can-i-elide-a-function-wrapper-from-the-traceback-in-python-3
+                in_progress.discard(id_func)
                 result = await func(*args, **kwargs)
+                in_progress.add(id_func)
 
                 if postconditions:
                     resolved_kwargs["result"] = result
@@ -865,7 +867,9 @@ def decorate_with_checker(func: CallableT) -> CallableT:
                 # Ideally, we would catch any exception here and strip the checkers from the traceback.
                 # Unfortunately, this can not be done in Python 3, see
                 # https://stackoverflow.com/questions/44813333/how-can-i-elide-a-function-wrapper-from-the-traceback-in-python-3
+                in_progress.discard(id_func)
                 result = func(*args, **kwargs)
+                in_progress.add(id_func)
 
                 if postconditions:
                     resolved_kwargs["result"] = result
